@@ -390,6 +390,12 @@ def run(ctx):
         os.remove(savepath)
     except OSError:
         pass
+    if not ctx.replay:
+        # outside the contract, support only: with a handler that RETURNS the model predicts a NULL dereference in mj_copyModel
+        # (Example C21_ex_returning_handler_unsafe); the implementation indeed dies with a signal
+        rcd, outd, _ = ctx.run(exe, model_lines[0] + "\nRUN CM R 0 0 0\n", timeout=120, args=[savepath + ".r"])
+        demo = [l for l in outd.split("\n") if l.startswith("RUN ")]
+        ctx.cov["support"]["returning_handler_demo"] = demo[0][:200] if demo else "not run"
     tm.setdefault("driver", round(time.time() - t0, 1)); t0 = time.time()
     sizes, runs, other = parse_runs(out)
     if rc != 0 or not runs or any(o.startswith(("BADLINE", "FORKFAIL", "MMAPFAIL")) for o in other):
@@ -444,6 +450,7 @@ def run(ctx):
             tie_cases.append("(%s, %s, [%s], %s, %s, %d, [%s])" % (
                 coq_scenario(r.scen, min(np_, 2), r.rej), "HExit" if r.mode == "E" else "HJump",
                 "; ".join(map(str, r.fails)), clslist, coq_bool(r.scen == "CP"), endk, "; ".join(impl)))
+            tie_cases[-1] = tie_cases[-1].replace(", [], ", ", (@nil nat), ", 1)      # a shard of fault-free runs must still type-check
             tie_runs.append((r, case))
         if r.fails:
             distinct.add((r.scen, r.mode, np_, r.rej, tuple(t.split(":")[0][0] + ":" + str(cls.get(int(t.split(":")[1]), 99))
